@@ -44,6 +44,7 @@ func c06Check(p *projgen.Project, rec *ev.Recorder) []harness.Viol {
 			viols = append(viols, harness.Viol{Signature: "C06:spec-not-json:" + v, Message: err.Error()})
 			continue
 		}
+		rec.Label("document-checked", 1)
 		got := specOps(doc)
 		for _, op := range p.ExpectedOps() {
 			if op.Method.Hidden {
@@ -249,6 +250,7 @@ var c06Profile = func() projgen.Profile {
 	pf := projgen.FullProfile
 	pf.Decoys = false
 	pf.MaxMethods = 4
+	pf.PtrPathParams = true
 	return pf
 }()
 
@@ -268,6 +270,6 @@ func TestC06(t *testing.T) {
 			"@ErrorResponse code with the error type's $ref; no context parameter. Non-trivial = an operation with >=3 parameters mixing pointer/non-pointer over >=2 locations, or a body/form " +
 			"together with error responses, or a non-default success code; distinct = canonical JSON of the model.",
 		Assume: []string{"extra response codes (the 3.0 emitter's `default`) are not a C06 matter: the statement lists what must be present", "validation keywords, descriptions and nullability are ignored when comparing schemas"},
-		Floors: map[string]float64{"nontrivial": 0.3, "accepted": 0.9},
+		Floors: map[string]float64{"nontrivial": 0.3, "accepted": 0.9, "document-checked": 1.6},
 	})
 }
